@@ -113,7 +113,8 @@ Contexts == CASE Scope = "one" ->
 \*   kid      message nested in the subject          cousin   message nested in another top-level message
 \*   parent   enclosing message                      root     outermost enclosing message (depth >= 3)
 \*   sibling  message nested in the same parent      shadow   message nested in a TOP-LEVEL message that has the
-\*                                                            same simple name as the (nested) subject
+\*                                                            same simple name as the (nested) subject; it is
+\*                                                            named like the subject's own child, if there is one
 \*   xfile / xnested   top-level / nested message of the other file of the package (file b imports file a)
 \*   dep / depnested   top-level / nested message of a dependency package;  wkt  google.protobuf.Duration
 MsgTargets(c) == CASE Scope = "small" -> {"self"}
